@@ -14,16 +14,26 @@ from . import uci_tokens as U
 
 
 class LineV:
-    """content of the line buffer after read_line"""
-    __slots__ = ('toks',)
+    """content of the line buffer after read_line: the tokens of the line while `present` holds, empty otherwise
+    (so that a buffer cleared on some paths only can be merged)"""
+    __slots__ = ('toks', 'present')
 
-    def __init__(self, toks):
-        self.toks = toks
+    def __init__(self, toks, present=True):
+        self.toks, self.present = toks, present
 
     def ite_with(self, g, o):
         if self.toks is o.toks:
-            return self
+            return LineV(self.toks, ite(g, self.present, o.present) if self.present is not o.present else self.present)
+        if not self.toks:
+            return LineV(o.toks, b_and(b_not(g), o.present))
+        if not o.toks:
+            return LineV(self.toks, b_and(g, self.present))
         raise Unsupported('ite of different lines')
+
+    def ite_mixed(self, g, other, self_is_then):
+        if isinstance(other, StrV) and other.s == '':
+            return LineV(self.toks, b_and(g if self_is_then else b_not(g), self.present))
+        raise Unsupported('ite of a line buffer with %r' % (other,))
 
 
 class Env:
@@ -43,9 +53,19 @@ def install(ex, env):
 
     def read_line(ctx, reader, bufp):
         env.reads += 1
+        # read_line APPENDS to the buffer: whatever is still in it when the next line is read is parsed again with that line
+        try:
+            cur = ctx.deref(bufp)
+        except Exception:
+            cur = None
+        stale = cur.present if (isinstance(cur, LineV) and len(cur.toks) > 0) else False
         if env.reads > 1:
             env.events.append(('iterated', ctx.st.guard, None))
+            if stale is not False:
+                env.events.append(('stale_buffer', b_and(ctx.st.guard, stale), None))
             return DIVERGE
+        if cur is not None and not (isinstance(cur, StrV) and cur.s == '') and not (isinstance(cur, LineV) and not cur.toks):
+            raise Unsupported('read_line into a buffer that is not known to be empty: %r' % (cur,))
         if env.eof:
             ctx.write(bufp, LineV([]))
             return ok(CI(0, 64))
@@ -54,6 +74,11 @@ def install(ex, env):
         ctx.ex.assume(nbytes != 0)      # read_line contract: 0 bytes <=> end of input
         return ok(nbytes)
     ex.model(r'^<impl BufRead as std::io::BufRead>::read_line$', read_line)
+
+    def string_clear(ctx, p):
+        ctx.write(p, StrV(''))
+        return UNIT
+    ex.model(r'^std::string::String::clear$', string_clear)
 
     def string_deref(ctx, p):
         v = ctx.deref(p) if isinstance(p, (Ptr, PtrIte)) else p
@@ -234,6 +259,24 @@ def check_loop(run, eof_hangs, known):
                                note='a line starting with isready produces readyok')
                 if q.verdict == 'sat':
                     run.violation('isready is not answered with readyok for line %r' % concretise(q.model, toks), {'cmd': 'parse', 'tokens': concretise(q.model, toks)})
+                stale = b_or(*[e[1] for e in env.events if e[0] == 'stale_buffer'])
+                if stale is not False:
+                    q = run.decide('loop/%s/len%d/line-buffer-empty-at-next-read' % (ss, n), ex.pre + [zb(stale)], kind='smt',
+                                   note='the line buffer is empty again when the next line is read (read_line appends)')
+                    if q.verdict == 'sat':
+                        words = concretise(q.model, toks)
+                        lines = [' '.join(words), 'isready']
+                        import subprocess
+                        try:
+                            p_ = subprocess.run([run.helper], input=''.join(l + '\n' for l in lines).encode(), capture_output=True, timeout=10)
+                            out_ = p_.stdout.decode(errors='replace')
+                        except subprocess.TimeoutExpired:
+                            out_ = ''
+                        if 'readyok' not in out_:
+                            run.violation('after the line `%s` the engine no longer answers isready: the rejected text stays in the line buffer and is parsed again with every later line' % lines[0],
+                                          {'cmd': 'lines', 'lines': lines})
+                        else:
+                            run.inconclusive.append('stale line buffer model not reproduced on the real binary: %r' % lines)
                 iterated = b_or(*[e[1] for e in env.events if e[0] == 'iterated'])
                 returned = r[1].guard if r is not None else False
                 q = run.decide('loop/%s/len%d/quit-leaves' % (ss, n), ex.pre + [is_quit, z3.Or(zb(iterated), z3.Not(zb(returned)))], kind='smt',
